@@ -62,6 +62,15 @@ pub fn make_entry(name: &[u8], data: &[u8]) -> Vec<u8> {
 }
 
 pub fn make_entry_typed(name: &[u8], data: &[u8], typeflag: u8) -> Vec<u8> {
+	// paths longer than the 100-byte header field: GNU long-name record ('L' member named ././@LongLink whose
+	// data is the full path + NUL) followed by the member itself with the path cut to 100 bytes
+	if name.len() > 100 && typeflag != b'L' {
+		let mut full = name.to_vec();
+		full.push(0);
+		let mut out = make_entry_typed(b"././@LongLink", &full, b'L');
+		out.extend_from_slice(&make_entry_typed(&name[..100], data, typeflag));
+		return out;
+	}
 	let mut h = vec![0u8; 512];
 	h[..name.len()].copy_from_slice(name);
 	h[100..108].copy_from_slice(b"0000644\0");
